@@ -167,6 +167,40 @@ theorem owed_of_change (s : Server) (f : FSet) (e : Eff) (k : Kind) (sid : Nat)
   obtain ⟨g, hg⟩ := hs
   exact Or.inr ⟨g, hg⟩
 
+/-- **A `Remove*(names…)` call is a change iff some named feature was present** (`featureSet.remove` sets its
+flag in the loop and never resets it): names that were never registered, or that an earlier name of the same call
+already removed, do not undo it — wherever they stand in the list. -/
+theorem removeEff_changed (names : List NameAt) : removeEff names = .noop ↔ NameAt.present ∉ names := by
+  simp only [removeEff]
+  constructor
+  · intro h
+    split at h
+    · rename_i hc; exact List.count_eq_zero.1 hc
+    · cases h
+  · intro h
+    rw [if_pos (List.count_eq_zero.2 h)]
+
+/-- a call that names only absent features is no change: nothing is owed for it -/
+theorem remove_absent_names_is_no_change (s : Server) (f : FSet) (names : List NameAt) (h : NameAt.present ∉ names) :
+    change s f (removeEff names) = s := by
+  rw [(removeEff_changed names).2 h]
+  simp [change]
+
+/-- **remove_names_announced.**  A `Remove*` call that names at least one registered feature — together with any
+number of absent or repeated names, in any position — puts every connected session in debt (so, by
+`no_lost_notification` and `at_least_one_after_burst`, a timer is armed or a callback pending, and the next snapshot
+contains every session entitled then). -/
+theorem remove_names_announced (s : Server) (f : FSet) (names : List NameAt) (k : Kind) (sid : Nat)
+    (hp : NameAt.present ∈ names) (hk : featureKind f = some k) (hg : gateSend s k = true)
+    (hs : sid ∈ s.sessions.map Prod.fst) : (sid, k) ∈ (change s f (removeEff names)).owed := by
+  apply owed_of_change s f _ k sid _ hk hg hs
+  have hc : names.count .present ≠ 0 := fun h => (List.count_eq_zero.1 h) hp
+  simp only [removeEff, hc, if_false]
+  rintro (h | ⟨h, _⟩) <;> cases h
+
+example : removeEff [.present, .absent] = .removeN 1 true ∧ removeEff [.absent, .present, .absent] = .removeN 1 true ∧
+    removeEff [.present, .present] = .removeN 2 false ∧ removeEff [.absent, .absent] = .noop := by decide
+
 /-- Meaning of the ghost, part 2: the debt stays until a snapshot of that kind is taken or the
 session is closed. -/
 theorem owed_persists (s : Server) (l : Label) (sid : Nat) (k : Kind) (h : (sid, k) ∈ s.owed)
